@@ -39,8 +39,8 @@ let of_n (n : coq_N) : Sx.t = A (Z.to_string (z_of_n n))
 let of_z (z : coq_Z) : Sx.t = A (Z.to_string (z_of_cz z))
 let of_bool (b : bool) : Sx.t = A (if b then "true" else "false")
 let of_int (i : int) : Sx.t = A (string_of_int i)
-let to_list f x = List.map f (lst x)
-let of_list f l = L (List.map f l)
+let to_list f x = Stdlib.List.map f (lst x)
+let of_list f l = L (Stdlib.List.map f l)
 let to_opt f x = match x with A "none" -> None | L [A "some"; y] -> Some (f y) | _ -> raise (Conv "option")
 let of_opt f o = match o with None -> A "none" | Some y -> L [A "some"; f y]
 
@@ -49,9 +49,9 @@ let to_bytes (x : Sx.t) : coq_N list =
   let a = atom x in
   if String.length a < 1 || a.[0] <> 'x' || (String.length a - 1) mod 2 <> 0 then raise (Conv "bytes");
   let n = (String.length a - 1) / 2 in
-  List.init n (fun i -> n_of_z (Z.of_int (int_of_string ("0x" ^ String.sub a (1 + 2 * i) 2))))
+  Stdlib.List.init n (fun i -> n_of_z (Z.of_int (int_of_string ("0x" ^ String.sub a (1 + 2 * i) 2))))
 let of_bytes (l : coq_N list) : Sx.t =
   let b = Buffer.create 64 in
   Buffer.add_char b 'x';
-  List.iter (fun n -> Buffer.add_string b (Printf.sprintf "%02x" (Z.to_int (z_of_n n)))) l;
+  Stdlib.List.iter (fun n -> Buffer.add_string b (Printf.sprintf "%02x" (Z.to_int (z_of_n n)))) l;
   A (Buffer.contents b)
